@@ -17,6 +17,8 @@ structure State where
   enc : String := "none"
   /-- `st.levels`: replaced only by a successful build / load / Reset -/
   levels : List Slim.Level := [(0, 0, 0)]
+  /-- further instances kept alive by `trie.stash` (values: they cannot interfere) -/
+  slots : List (String × Option Trie1 × SlimMsg × Bool × String × List Slim.Level) := []
 
 /-- FNV-1a 64 over bytes (each `Char` of our renderings is one byte) -/
 def fnv64 (bs : List Nat) : String :=
@@ -190,6 +192,12 @@ def stepCore (st : State) (toks : List String) : State × String :=
       (match err with
        | none => ({ st with t1 := none, msg := inst.inner, levels := inst.levels }, "ok")
        | some e => ({ st with t1 := none, msg := inst.inner, levels := inst.levels }, errStr e))
+  | ["trie.stash", n] =>
+    ({ st with slots := (n, st.t1, st.msg, st.has, st.enc, st.levels) :: st.slots.filter (·.1 != n) }, "ok")
+  | ["trie.unstash", n] =>
+    (match st.slots.find? (·.1 == n) with
+     | some (_, t1, msg, has, enc, levels) => ({ st with t1 := t1, msg := msg, has := has, enc := enc, levels := levels }, "ok")
+     | none => (st, "no-slot"))
   | ["trie.reset"] =>
     if !st.has then (st, "panic") else
     ({ st with t1 := none, msg := {}, levels := [(0, 0, 0)] }, "ok")
